@@ -27,12 +27,19 @@ RULES = {
     "R6": "no store of deserialized data into an IR object is controlled by an ==/!= comparison of objects whose class "
     "defines a partial __eq__ (one that ignores part of the instance state, e.g. denotations): 'equal' does not mean "
     "'carries the same information', so skipping or choosing the store on it drops proto content",
+    "R8": "no mutual deferral between per-value emitters: when the writer visits overlapping collections (graph inputs, "
+    "initializers, node outputs) and one loop skips the values that belong to another collection ('added below'), the "
+    "loop over that other collection emits for them unconditionally - two loops that each defer to the other drop the "
+    "values in the intersection (e.g. the quantization annotation of an input that is also an initializer)",
+    "R9": "value-info category agreement: for graphs and functions, every category of value (inputs, initializers, "
+    "node outputs) for which the writer emits value_info entries is a category to which the paired reader applies "
+    "value_info entries - otherwise the type/shape of that category is written but never read back",
     "R7": "no early exit of a writer bypasses a field write: for every `return` inside a serialize function, each proto "
     "field write that would still be reached if the function went on is either data-dependent on what the return's "
     "guard tested (nothing to write), or the return follows a whole-message CopyFrom, or it follows a logged warning "
     "(declared unsupported case)",
 }
-FLOORS = {"R1": 100, "R2": 40, "R3": 30, "R4": 1, "R5": 40, "R6": 20, "R7": 6}
+FLOORS = {"R1": 100, "R2": 40, "R3": 30, "R4": 1, "R5": 40, "R6": 20, "R7": 6, "R8": 3, "R9": 3}
 EXPLANATION = (
     "Types every proto expression of serde.py through parameter annotations and the parsed onnx-ml.proto schema, "
     "collects per message the fields the deserializer reads and the serializer writes (attribute access, HasField, "
@@ -273,7 +280,7 @@ def rule_r3(ctx):
         ctx.check("R3", f"S1 {f.local}: {label}"[:150], ok, f, node, detail, how="GRAPH/GRAPHS sibling agreement", construct=f"S1 {label}")
 
 
-def rule_r4(ctx):
+def rule_r4(ctx, rule="R4"):
     n = 0
     for f in c03.ser_funcs(ctx):
         copies = [c for c in calls_in(f) if isinstance(c.func, ast.Attribute) and c.func.attr in ("CopyFrom", "MergeFrom")]
@@ -303,18 +310,24 @@ def rule_r4(ctx):
                     nn = cfg.nodes_containing(c)
                     if nn and nn[0].id in reach:
                         fld = t[len(tgt) + 1:].split(".")[0]
-                        cleared = any(isinstance(x.func, ast.Attribute) and x.func.attr == "ClearField" and x.args
-                                      and isinstance(x.args[0], ast.Constant) and x.args[0].value == fld
-                                      and cfg.nodes_containing(x) and cfg.nodes_containing(x)[0].id in reach
-                                      for x in calls_in(f))
+                        clears = [x for x in calls_in(f) if isinstance(x.func, ast.Attribute) and x.func.attr == "ClearField" and x.args
+                                  and isinstance(x.args[0], ast.Constant) and x.args[0].value == fld
+                                  and cfg.nodes_containing(x) and cfg.nodes_containing(x)[0].id in reach]
                         dels = any(isinstance(s, ast.Delete) and fld in norm(s) for s in own_nodes(f.node))
-                        if not cleared and not dels:
-                            bad.append((c, fld))
-            ctx.check("R4", f"{f.local}: after {tgt}.CopyFrom(…) no repeated field of {tgt} is appended to", not bad, f,
+                        if not clears and not dels:
+                            bad.append((c, fld, "appended again"))
+                        elif clears and not dels:
+                            # the copied entries are dropped on EVERY path after the copy, not only when the IR side has
+                            # something to write (otherwise entries deleted from the IR object come back from the copy)
+                            ks = {cfg.nodes_containing(x)[0].id for x in clears}
+                            if not cfg.all_paths_through(cn, ks, {cfg.exit.id}, exc=False):
+                                bad.append((clears[0], fld, "cleared only on some paths"))
+            ctx.check(rule, f"{f.local}: after {tgt}.CopyFrom(…) a repeated field of {tgt} that the IR re-writes is cleared on every path", not bad, f,
                       bad[0][0] if bad else cp,
-                      f"`{tgt}` receives the whole source message and then `{bad[0][1] if bad else ''}` is appended again: "
-                      "the entries are emitted twice (they double on every round trip)",
-                      how="reachability from the CopyFrom to appends into the same target's sub-fields, unless cleared")
+                      (f"`{tgt}` receives the whole source message and `{bad[0][1]}` is {bad[0][2]}: the copied entries are emitted "
+                       "next to (or instead of) the IR's own - they double on every round trip, or entries removed from the IR object reappear") if bad else "",
+                      how="reachability from the CopyFrom to appends into the same target's sub-fields; the ClearField lies on every path from the copy to the exit",
+                      construct=f"{tgt}.{bad[0][1]} {bad[0][2]}" if bad else None)
     ctx.require(n >= 1, "no whole-message CopyFrom into a named target found")
 
 
@@ -597,9 +610,142 @@ def rule_r6(ctx):
     ctx.require(n >= 20, f"only {n} IR stores found in the deserialize functions")
 
 
+def _collection_of(f, e) -> str | None:
+    """'inputs' / 'initializers' / 'outputs' when e (a loop iterable or the right side of a membership test) derives from
+    <x>.inputs / <x>.initializers / <x>.outputs, directly or through a local built from it."""
+    for x in ast.walk(e):
+        if isinstance(x, ast.Attribute) and x.attr in ("inputs", "initializers", "outputs"):
+            return x.attr
+    for x in ast.walk(e):
+        if isinstance(x, ast.Name):
+            for n in own_nodes(f.node):
+                if isinstance(n, (ast.Assign, ast.AnnAssign)) and getattr(n, "value", None) is not None and any(
+                        isinstance(t, ast.Name) and t.id == x.id for t in (n.targets if isinstance(n, ast.Assign) else [n.target])):
+                    for y in ast.walk(n.value):
+                        if isinstance(y, ast.Attribute) and y.attr in ("inputs", "initializers", "outputs"):
+                            return y.attr
+    return None
+
+
+def rule_r8(ctx):
+    n = 0
+    for f in writer_funcs(ctx):
+        # per-value emitters: module helpers called with a loop variable inside loops over value collections
+        sites = {}
+        for lp in (x for x in own_nodes(f.node) if isinstance(x, ast.For) and isinstance(x.target, ast.Name)):
+            coll = _collection_of(f, lp.iter)
+            if coll is None:
+                continue
+            v = lp.target.id
+            for c in (x for x in ast.walk(lp) if isinstance(x, ast.Call)):
+                d = dotted_of(c.func) or ""
+                if not d or "." in d or not any(isinstance(a, ast.Name) and a.id == v for a in c.args):
+                    continue
+                # membership guards between the call and the loop: `<v>.name (not) in <collection>`
+                defers = set()
+                child, par = c, getattr(c, "_parent", None)
+                while par is not None and par is not lp:
+                    if isinstance(par, ast.If) and any(child is y for st in par.body for y in ast.walk(st)):
+                        for t in ast.walk(par.test):
+                            if isinstance(t, ast.Compare) and len(t.ops) == 1 and isinstance(t.ops[0], ast.NotIn):
+                                other = _collection_of(f, t.comparators[0])
+                                if other and other != coll:
+                                    defers.add(other)
+                    child, par = par, getattr(par, "_parent", None)
+                sites.setdefault(d, []).append((coll, defers, c))
+        for emitter, lst in sites.items():
+            if len(lst) < 2:
+                continue
+            for coll, defers, c in lst:
+                n += 1
+                back = [(c2, coll2) for coll2, defers2, c2 in lst if coll2 in defers and coll in defers2]
+                ctx.check("R8", f"{f.local}: {emitter}(…) in the loop over {coll} (defers to {sorted(defers) or 'nothing'})", not back, f, c,
+                          f"the loop over `{coll}` skips values that are also in `{back[0][1] if back else ''}` and the loop over "
+                          f"`{back[0][1] if back else ''}` skips values that are also in `{coll}`: for a value in both collections {emitter} is never "
+                          "called, so what it emits is lost in the round trip",
+                          how="membership guards of the emitter's call sites, collection of each enclosing loop; no pair defers to each other",
+                          construct=f"{emitter}: {coll} and {back[0][1] if back else ''} defer to each other")
+    ctx.require(n >= 3, f"only {n} per-value emitter sites examined")
+
+
+def _vi_categories_written(f) -> dict[str, ast.AST]:
+    """Categories of values for which the writer f adds entries to <proto>.value_info."""
+    out = {}
+    for c in (x for x in own_nodes(f.node) if isinstance(x, ast.Call)):
+        if not ((dotted_of(c.func) or "").endswith("serialize_value_into") and c.args and isinstance(c.args[0], ast.Call)
+                and isinstance(c.args[0].func, ast.Attribute) and c.args[0].func.attr == "add"
+                and isinstance(c.args[0].func.value, ast.Attribute) and c.args[0].func.value.attr == "value_info"):
+            continue
+        v = c.args[1] if len(c.args) > 1 else None
+        p = getattr(c, "_parent", None)
+        while p is not None and p is not f.node:
+            if isinstance(p, ast.For) and isinstance(p.target, ast.Name) and isinstance(v, ast.Name) and p.target.id == v.id:
+                it = p.iter
+                attr = next((x.attr for x in ast.walk(it) if isinstance(x, ast.Attribute) and x.attr in ("inputs", "initializers", "outputs")), None)
+                if attr == "outputs":
+                    attr = "node outputs"  # loops over <node>.outputs
+                if attr:
+                    out.setdefault(attr, c)
+                break
+            p = getattr(p, "_parent", None)
+    return out
+
+
+def _vi_categories_read(ctx, f) -> set[str]:
+    """Categories of values to which the reader f applies value_info entries."""
+    out = set()
+    for c in calls_in(f):
+        d = dotted_of(c.func) or ""
+        if d in ("_declare_node_outputs", "_deserialize_node") and (any(k.arg == "value_info" for k in c.keywords) or len(c.args) >= 3):
+            out.add("node outputs")
+        if d.endswith("deserialize_value_info_proto") and len(c.args) >= 2 and isinstance(c.args[1], ast.Name):
+            v = c.args[1].id
+            # provenance of the value: loop variable over a list built for a category, or a local of the initializer branch
+            p = getattr(c, "_parent", None)
+            while p is not None and p is not f.node:
+                if isinstance(p, ast.For) and any(isinstance(x, ast.Name) and x.id == v for x in ast.walk(p.target)):
+                    names = {x.id for x in ast.walk(p.iter) if isinstance(x, ast.Name)}
+                    for nm in names:
+                        for n in own_nodes(f.node):
+                            if isinstance(n, (ast.Assign, ast.AnnAssign)) and any(isinstance(t, ast.Name) and t.id == nm for t in (n.targets if isinstance(n, ast.Assign) else [n.target])):
+                                src = norm(n.value) if getattr(n, "value", None) is not None else ""
+                                if "proto.input" in src or ".input" in src:
+                                    out.add("inputs")
+                    if any(isinstance(x, ast.Attribute) and x.attr == "input" for x in ast.walk(p.iter)):
+                        out.add("inputs")
+                    break
+                p = getattr(p, "_parent", None)
+            for n in own_nodes(f.node):
+                if isinstance(n, ast.Assign) and any(isinstance(t, ast.Name) and t.id == v for t in n.targets) and isinstance(n.value, ast.Call) \
+                        and any(k.arg == "const_value" for k in n.value.keywords):
+                    out.add("initializers")
+    return out
+
+
+def rule_r9(ctx):
+    repo = ctx.repo
+    pairs = (("serialize_graph_into", "_deserialize_graph"), ("serialize_function_into", "deserialize_function"))
+    n = 0
+    for wn, rn in pairs:
+        w, r = repo.func(f"{SERDE}:{wn}"), repo.func(f"{SERDE}:{rn}")
+        written = _vi_categories_written(w)
+        read = _vi_categories_read(ctx, r)
+        ctx.tables[f"value_info categories {wn} / {rn}"] = {"written": sorted(written), "read": sorted(read)}
+        for cat, node in sorted(written.items()):
+            n += 1
+            ctx.check("R9", f"{rn}: value_info is applied to {cat} (written by {wn})", cat in read, r, r.node,
+                      f"{wn} writes value_info entries for {cat} but {rn} never applies value_info to them: their type and shape "
+                      "are lost on every round trip",
+                      how="writer: loops adding <proto>.value_info entries, by collection; reader: targets of deserialize_value_info_proto / value_info= arguments",
+                      construct=f"value_info of {cat} not read")
+    ctx.require(n >= 3, f"only {n} value_info categories found in the writers")
+
+
 def run(ctx):
+    rule_r9(ctx)
     rule_r6(ctx)
     rule_r7(ctx)
+    rule_r8(ctx)
     rule_r1(ctx)
     rule_r2(ctx)
     rule_r3(ctx)
